@@ -3,7 +3,8 @@
    C08: ClassAds survive the wire; the decoder's literal shortcuts agree with the full parser;
    the three receivers consume the same bytes. *)
 From Coq Require Import List NArith ZArith Bool.
-From Cedar Require Import Lib.Bytes Model.Msg Model.AdWire Model.Literal Proofs.C08 Proofs.C08Wire.
+From Cedar Require Import Lib.Bytes Model.Msg Model.Privacy Model.AdWire Model.Literal Proofs.C08 Proofs.C08Wire.
+From Cedar Require Import Proofs.C14Reader Proofs.C14Writer Proofs.C14Roundtrip Proofs.C08Round.
 Import ListNotations.
 
 (* For EVERY value text (any bytes), whatever strconv says about the range of a real:
@@ -111,3 +112,42 @@ Example C08_same_bytes_nonvacuous :
   exists x t1, get_ad_raw t = (t1, MOk x) /\ fst (fst x) = [[x4e; x20; x3d; x20; x31]; [x43; x6c; x61; x69; x6d; x49; x64; x20; x3d; x20; x22; x73; x22]]
                /\ existsb fst (s_frames (s_finish (put_ad c (sstate_init true false) a))) = true.
 Proof. cbv zeta. eexists. eexists. vm_compute. repeat split. Qed.
+
+(* C08_wire_layout: on a plaintext or an encrypting stream, for EVERY ad, option set, whitelist
+   and peer version, the payload bytes the sender hands to the stream (all frames, in order) are:
+   the count, then one CEDAR string per item - ServerTime if requested, "name = expr" for each
+   attribute that passes the privacy/whitelist filter, in GetAttributes order, then MyType and
+   TargetType unless NoTypes - wherever the frame boundaries fall. *)
+Theorem C08_wire_layout : forall (c : config) (key enc : bool) (a : ad),
+  secret_is_noop key enc = true ->
+  s_bytes (s_finish (put_ad c (sstate_init key enc) a)) =
+    enc_int (Z.of_nat (length (attrs_to_send c (ad_attrs a))) + (if opt_server_time (c_opts c) then 1 else 0)) ++
+    concat (map (string_bytes enc) (ad_items c a)).
+Proof. exact wire_layout. Qed.
+Print Assumptions C08_wire_layout.
+
+(* C08_attrs_roundtrip: through ANY honest framing [fs] of those bytes (single frame, the sender's
+   own multi-frame cut, one frame per byte, ...), in both string modes, reading a count and then one
+   string per item returns the count and EXACTLY the sender's items: the rendered text of every
+   non-filtered attribute, unchanged, and the two type names.  Strings must be NUL-free (and on an
+   encrypted stream not start with 0xAD and be shorter than 2^31): rendered ClassAd expressions are.
+   (The value each text denotes is then the parser's business: C08_shortcut_sound.) *)
+Theorem C08_attrs_roundtrip : forall (c : config) (key enc : bool) (a : ad) (fs : list mframe),
+  secret_is_noop key enc = true ->
+  Forall (valid_str enc) (ad_items c a) ->
+  (Z.of_nat (length (ad_attrs a)) < 2 ^ 62)%Z ->
+  frames_ok false fs ->
+  concat (map fst fs) = s_bytes (s_finish (put_ad c (sstate_init key enc) a)) ->
+  run_ops enc (reader_of fs) (map op_of (ad_vals c a)) = map (fun v => MOk (val_of v)) (ad_vals c a).
+Proof. exact attrs_roundtrip. Qed.
+Print Assumptions C08_attrs_roundtrip.
+
+(* ... in particular through the frames the model sender itself produced *)
+Theorem C08_attrs_roundtrip_own : forall (c : config) (key enc : bool) (a : ad),
+  secret_is_noop key enc = true ->
+  Forall (valid_str enc) (ad_items c a) ->
+  (Z.of_nat (length (ad_attrs a)) < 2 ^ 62)%Z ->
+  run_ops enc (reader_of (map snd (s_frames (s_finish (put_ad c (sstate_init key enc) a))))) (map op_of (ad_vals c a))
+  = map (fun v => MOk (val_of v)) (ad_vals c a).
+Proof. exact attrs_roundtrip_own. Qed.
+Print Assumptions C08_attrs_roundtrip_own.
